@@ -98,58 +98,7 @@ func runC14(c *core.Ctx) {
 
 	// ---------------- R14a / R14b stores in the run set
 	runFns := repoFuncsIn(e.run)
-	nStores := 0
-	for _, f := range runFns {
-		for _, w := range core.Writes(f) {
-			nStores++
-			key := core.FuncKey(f) + " writes "
-			// R14b: rooted at a package-level variable
-			if w.Global != nil && core.InRepo(w.Global.Pkg.Pkg) {
-				c.Bad("R14b", key+"global "+w.Global.Name(), w.Pos, "run-set function stores to memory rooted at package-level variable "+w.Global.Name()+" without synchronisation")
-				continue
-			}
-			// R14a: chain through a shared type
-			var hit *core.AddrStep
-			fresh := core.IsFresh(w.Root)
-			sharedFresh := false
-			// walk from the root side: object stays fresh until a load step
-			for i := len(w.Chain) - 1; i >= 0; i-- {
-				st := w.Chain[i]
-				if st.Kind == "load" {
-					// loading the fresh local variable itself (Alloc of a pointer) keeps freshness only if the
-					// loaded pointer was stored from a fresh allocation — not tracked: freshness ends.
-					if _, isAlloc := w.Root.(*ssa.Alloc); isAlloc && i == len(w.Chain)-1 && !isStructAlloc(w.Root) {
-						// local variable cell holding a pointer: unknown pointee
-						fresh = false
-					} else {
-						fresh = false
-					}
-				}
-				if st.Kind == "field" && shared.has(st.Owner) {
-					if fresh {
-						sharedFresh = true
-						continue
-					}
-					s := st
-					hit = &s
-					break
-				}
-			}
-			if w.Kind == "struct" && shared.has(w.Owner) && !core.IsFresh(w.Root) {
-				c.Bad("R14a", key+"*"+w.Owner.Obj().Name(), w.Pos, "run-set function overwrites a schema-owned "+w.Owner.Obj().Name()+" value")
-				continue
-			}
-			if hit != nil {
-				c.Bad("R14a", key+hit.Owner.Obj().Name()+"."+hit.Field.Name(), w.Pos,
-					"store through field "+hit.Field.Name()+" of schema-owned type "+core.Rel(hit.Owner.Obj().Pkg().Path())+"."+hit.Owner.Obj().Name()+
-						" in a function reachable from NewTransform/Read: schemas are shared between goroutines and must be read-only after NewSchema")
-				continue
-			}
-			if sharedFresh {
-				c.OK("R14a", key+"fresh local of shared type", w.Pos, "the written object is a fresh allocation of this function")
-			}
-		}
-	}
+	nStores := c14SharedStores(c, runFns, shared, "R14a", "R14b")
 	c.Stats["run_set_stores_inspected"] = nStores
 	c.OK("R14a", "run-set store inventory", 0, fmt.Sprintf("%d stores in %d run-set repository functions inspected against %d shared types", nStores, len(runFns), len(names)))
 	if nStores < 150 {
@@ -521,4 +470,63 @@ func c14ObjectUses(c *core.Ctx, f *ssa.Function, load *ssa.UnOp, g *ssa.Global, 
 		}
 		c.Bad(rule, key, core.InstrPos(ci), "object held in a package-level variable is passed to "+ci.Common().String()+", which is not one of the synchronised operations (sync.Pool, sync/atomic, LoadingCache.Get)")
 	}
+}
+
+// c14SharedStores: no store through a field of a schema-owned type (ruleS) or rooted at a package-level variable
+// (ruleG) in the given run-set functions, unless the written object is a fresh allocation of the function. Shared with
+// C10/C15, for which a memo written into the shared schema is a cross-record / cross-transform channel.
+func c14SharedStores(c *core.Ctx, runFns []*ssa.Function, shared *c14shared, ruleS, ruleG string) int {
+	nStores := 0
+	for _, f := range runFns {
+		for _, w := range core.Writes(f) {
+			nStores++
+			key := core.FuncKey(f) + " writes "
+			// R14b: rooted at a package-level variable
+			if w.Global != nil && core.InRepo(w.Global.Pkg.Pkg) {
+				c.Bad(ruleG, key+"global "+w.Global.Name(), w.Pos, "run-set function stores to memory rooted at package-level variable "+w.Global.Name()+" without synchronisation")
+				continue
+			}
+			// R14a: chain through a shared type
+			var hit *core.AddrStep
+			fresh := core.IsFresh(w.Root)
+			sharedFresh := false
+			// walk from the root side: object stays fresh until a load step
+			for i := len(w.Chain) - 1; i >= 0; i-- {
+				st := w.Chain[i]
+				if st.Kind == "load" {
+					// loading the fresh local variable itself (Alloc of a pointer) keeps freshness only if the
+					// loaded pointer was stored from a fresh allocation — not tracked: freshness ends.
+					if _, isAlloc := w.Root.(*ssa.Alloc); isAlloc && i == len(w.Chain)-1 && !isStructAlloc(w.Root) {
+						// local variable cell holding a pointer: unknown pointee
+						fresh = false
+					} else {
+						fresh = false
+					}
+				}
+				if st.Kind == "field" && shared.has(st.Owner) {
+					if fresh {
+						sharedFresh = true
+						continue
+					}
+					s := st
+					hit = &s
+					break
+				}
+			}
+			if w.Kind == "struct" && shared.has(w.Owner) && !core.IsFresh(w.Root) {
+				c.Bad(ruleS, key+"*"+w.Owner.Obj().Name(), w.Pos, "run-set function overwrites a schema-owned "+w.Owner.Obj().Name()+" value")
+				continue
+			}
+			if hit != nil {
+				c.Bad(ruleS, key+hit.Owner.Obj().Name()+"."+hit.Field.Name(), w.Pos,
+					"store through field "+hit.Field.Name()+" of schema-owned type "+core.Rel(hit.Owner.Obj().Pkg().Path())+"."+hit.Owner.Obj().Name()+
+						" in a function reachable from NewTransform/Read: schemas are shared between goroutines and must be read-only after NewSchema")
+				continue
+			}
+			if sharedFresh {
+				c.OK(ruleS, key+"fresh local of shared type", w.Pos, "the written object is a fresh allocation of this function")
+			}
+		}
+	}
+	return nStores
 }
